@@ -16,6 +16,14 @@ each under the 4 combinations of yaql.convertTuplesToLists x yaql.convertSetsToL
     finalised evaluation must succeed too and return exactly the image of the
     raw value; the recursive type census of the result must be plain data.
 
+(4) stub: library functions called directly through the YaqlInterface stub - yi.name(args) and
+    yi.on(receiver).name(args), with keyword arguments and python callables as lambdas - whose results
+    are mappings, sets, sequences, iterators, views and scalars: the stub's result must be the image of
+    what the same call returns through the context without finaliser.
+(5) captured options: the 4 combination engines are created from ONE host dict updated in place, which is
+    then cleared and filled with the opposite flags: every engine keeps finalising by the options it was
+    created with.
+
 Where the image needs an unhashable dict key or set member (a composite value
 converted to list/dict/set in such a place) the model cannot name a value; the
 implementation raising TypeError there is reported as
@@ -44,7 +52,7 @@ ASSUMPTIONS = ['JSON-like documents have string keys; composite keys are produce
 BOUNDS = {
     'quick': 'documents: depth <= 3, width <= 2, at most 5 nodes (22 781), those of <= 3 nodes also through '
              'YaqlInterface; producers: all kind-correct compositions of <= 3 producers over 4 atoms (12 586); '
-             'x 4 option combinations',
+             'x 4 option combinations; 66 stub calls x 4; 50 expressions x 4 engines from one mutated options dict x 3 phases',
     'thorough': 'documents: depth <= 3, width <= 2, all of them (at most 7 nodes, 142 515); producers as in quick; x 4',
 }
 JOB_LIMIT = {'quick': 600, 'thorough': 3600}
